@@ -1,5 +1,162 @@
-(* C04 — placeholder while the proofs are being written (statements follow). *)
-From Coq Require Import NArith List.
-From ISAL Require Import Spec.AES Spec.CBC Gen.AesCfgGen.
-Example C04_kat_F_2_1 : cbc_enc cbc_kat_K128 cbc_kat_IV cbc_kat_P = cbc_kat_C128.
+(* C04 — AES key expansion equals FIPS-197 (encryption round keys + the matching decryption
+   schedule); AES-CBC equals SP 800-38A for every number of blocks, decryption inverts it.
+   This file contains only statements, each closed by an already-proved lemma.
+
+   Vocabulary as in Properties/C03.v (bytes, wfb, valid_key, len_sched; Proofs/AesFacts.v).
+   key_expansion / dec_schedule / cipher / inv_cipher / eq_inv_cipher: Spec/AES.v (FIPS-197, with
+   the standard's known answers);  cbc_enc / cbc_dec: Spec/CBC.v (SP 800-38A 6.2);
+   keyexp_enc / keyexp_dec, cbc_enc_model / cbc_dec_model: Model/KeyExp.v, Model/Cbc.v — what the
+   library's entry points leave in / read from memory. *)
+From Coq Require Import NArith List Arith Lia.
+From ISAL Require Import Base.Words Base.ListUtil Spec.AES Spec.CBC Model.KeyExp Model.Cbc Gen.AesCfgGen
+  Proofs.AesFacts Proofs.XtsFacts Proofs.CbcFacts Proofs.AesCfgFacts Proofs.AesModesExamples.
+Import ListNotations.
+Local Open Scope N_scope.
+
+(* (a) the decryption schedule: the encryption round keys reversed, InvMixColumns applied to
+   every key but the first and the last (the layout documented in include/aes_xts.h) ... *)
+Theorem C04_dec_schedule_layout : forall (first : list N) (inner : list (list N)) (last : list N),
+  dec_schedule (first :: inner ++ [last]) = last :: map inv_mix_columns (rev inner) ++ [first].
+Proof. exact c_dec_schedule_layout. Qed.
+Print Assumptions C04_dec_schedule_layout.
+
+(* ... the same by index: Key[0] = round Nr key, Key[i] = InvMixColumns(round Nr-i key), Key[Nr] = round 0 key *)
+Theorem C04_dec_schedule_nth : forall (rks : list (list N)) (n i : nat), length rks = S n -> (i <= n)%nat ->
+  nth i (dec_schedule rks) [] =
+  if (Nat.eqb i 0 || Nat.eqb i n)%bool then nth (n - i) rks [] else inv_mix_columns (nth (n - i) rks []).
+Proof. exact c_dec_schedule_nth. Qed.
+Print Assumptions C04_dec_schedule_nth.
+
+(* ... and decrypting with it (Equivalent Inverse Cipher, i.e. aesdec) is InvCipher, which inverts Cipher *)
+Theorem C04_dec_schedule_decrypts : forall k blk : list N, valid_key k -> wfb blk ->
+  eq_inv_cipher (dec_schedule (key_expansion k)) (cipher (key_expansion k) blk) = blk.
+Proof. exact c_dec_schedule_decrypts. Qed.
+Print Assumptions C04_dec_schedule_decrypts.
+
+(* (b) sizes: Nk+7 round keys of 16 bytes; with the header's constants (regenerated from
+   include/aes_cbc.h): 16/24/32-byte keys give 11/13/15 round keys = ISAL_CBC_*_KEY_ROUNDS, the
+   two arrays hold ISAL_CBC_ROUND_KEY_LEN * rounds bytes and fit ISAL_CBC_MAX_KEYS_SIZE *)
+Theorem C04_key_expansion_shape : forall k : list N, valid_key_len (length k) = true ->
+  length (key_expansion k) = (length k / 4 + 7)%nat /\ len_sched (key_expansion k) /\
+  (bytes k -> wf_sched (key_expansion k)).
+Proof. exact key_expansion_facts. Qed.
+Print Assumptions C04_key_expansion_shape.
+
+Theorem C04_header_schedule_sizes :
+  key_bits_ok isal_cbc_128_bits_src isal_cbc_128_key_rounds_src /\
+  key_bits_ok isal_cbc_192_bits_src isal_cbc_192_key_rounds_src /\
+  key_bits_ok isal_cbc_256_bits_src isal_cbc_256_key_rounds_src /\
+  isal_cbc_iv_data_len_src = 16.
+Proof. exact c_cfg_schedule_sizes. Qed.
+Print Assumptions C04_header_schedule_sizes.
+
+(* (c) CBC decryption inverts CBC encryption for EVERY number of blocks n (n = 0 included) *)
+Theorem C04_cbc_dec_enc : forall (k iv p : list N) (n : nat),
+  valid_key k -> wfb iv -> bytes p -> length p = (16 * n)%nat ->
+  cbc_dec k iv (cbc_enc k iv p) = p.
+Proof. exact c_cbc_dec_enc. Qed.
+Print Assumptions C04_cbc_dec_enc.
+
+Theorem C04_cbc_enc_length : forall (k iv p : list N) (n : nat),
+  valid_key_len (length k) = true -> length iv = 16%nat -> length p = (16 * n)%nat ->
+  length (cbc_enc k iv p) = length p.
+Proof. exact c_cbc_enc_length. Qed.
+Print Assumptions C04_cbc_enc_length.
+
+(* (d) the parallel-decrypt identity every by-8 / by-16 implementation relies on:
+   P_j = D(C_j) xor C_(j-1), C_0 = IV — each plaintext block depends on two ciphertext blocks
+   only, so blocks may be decrypted in any order / in parallel, and in-place processing is a
+   pure reordering as long as C_(j-1) is read before P_(j-1) overwrites it *)
+Theorem C04_cbc_dec_blockwise : forall k iv c : list N,
+  cbc_dec k iv c = cbc_dec_par (aes_dec k) iv (chunks 16 c).
+Proof. exact c_cbc_dec_blockwise. Qed.
+Print Assumptions C04_cbc_dec_blockwise.
+
+Theorem C04_cbc_dec_block_j : forall (k iv c : list N) (n j : nat),
+  valid_key_len (length k) = true -> length iv = 16%nat -> length c = (16 * n)%nat -> (j < n)%nat ->
+  nth j (chunks 16 (cbc_dec k iv c)) [] =
+  xorb_list (aes_dec k (nth j (chunks 16 c) [])) (nth j (iv :: chunks 16 c) []).
+Proof. exact c_cbc_dec_block_j. Qed.
+Print Assumptions C04_cbc_dec_block_j.
+
+(* (e) chaining across calls: a message processed in two calls, the second with IV = the last
+   ciphertext block of the first, gives the one-call result *)
+Theorem C04_cbc_append : forall (k iv p1 p2 : list N) (n1 : nat),
+  valid_key_len (length k) = true -> length iv = 16%nat -> length p1 = (16 * n1)%nat ->
+  cbc_enc k iv (p1 ++ p2) = cbc_enc k iv p1 ++ cbc_enc k (cbc_next_iv iv (cbc_enc k iv p1)) p2.
+Proof. exact c_cbc_enc_append. Qed.
+Print Assumptions C04_cbc_append.
+
+Theorem C04_cbc_dec_append : forall (k iv c1 c2 : list N) (n1 : nat), length c1 = (16 * n1)%nat ->
+  cbc_dec k iv (c1 ++ c2) = cbc_dec k iv c1 ++ cbc_dec k (cbc_next_iv iv c1) c2.
+Proof. exact c_cbc_dec_append. Qed.
+Print Assumptions C04_cbc_dec_append.
+
+(* (f) the entry-point models on the schedules the key expansion writes equal the standard *)
+Theorem C04_cbc_enc_model_eq_spec : forall k iv p : list N, cbc_enc_model (keyexp_enc k) iv p = cbc_enc k iv p.
+Proof. exact c_cbc_enc_model_eq_spec. Qed.
+Print Assumptions C04_cbc_enc_model_eq_spec.
+
+Theorem C04_cbc_dec_model_eq_spec : forall (k iv c : list N) (n : nat), length c = (16 * n)%nat ->
+  cbc_dec_model (keyexp_dec k) iv c = cbc_dec k iv c.
+Proof. exact c_cbc_dec_model_eq_spec. Qed.
+Print Assumptions C04_cbc_dec_model_eq_spec.
+
+(* non-vacuity and the standards' known answers *)
+Example C04_nonvacuous_cbc :
+  (valid_key cbc_kat_K128 /\ valid_key cbc_kat_K192 /\ valid_key cbc_kat_K256) /\ wfb cbc_kat_IV /\ bytes cbc_kat_P /\
+  length cbc_kat_P = (16 * 4)%nat /\
+  (cbc_enc cbc_kat_K128 cbc_kat_IV cbc_kat_P = cbc_kat_C128 /\ cbc_kat_C128 <> cbc_kat_P) /\
+  cbc_enc cbc_kat_K192 cbc_kat_IV cbc_kat_P = cbc_kat_C192 /\
+  cbc_enc cbc_kat_K256 cbc_kat_IV cbc_kat_P = cbc_kat_C256 /\
+  cbc_dec cbc_kat_K192 cbc_kat_IV cbc_kat_C192 = cbc_kat_P /\
+  cbc_enc_model (keyexp_enc cbc_kat_K192) cbc_kat_IV cbc_kat_P = cbc_kat_C192 /\
+  cbc_dec_model (keyexp_dec cbc_kat_K192) cbc_kat_IV cbc_kat_C192 = cbc_kat_P.
+Proof. exact c04_ex_cbc. Qed.
+
+Example C04_nonvacuous_dec_schedule :
+  let rks := key_expansion kat_key192 in
+  let d := dec_schedule rks in
+  length rks = 13%nat /\ length d = 13%nat /\
+  nth 0 d [] = nth 12 rks [] /\ nth 12 d [] = firstn 16 kat_key192 /\
+  nth 5 d [] = inv_mix_columns (nth 7 rks []) /\ nth 5 d [] <> nth 7 rks [] /\
+  length (keyexp_enc kat_key192) = 208%nat /\ length (keyexp_dec kat_key192) = 208%nat.
+Proof. exact c04_ex_dec_schedule. Qed.
+
+(* FIPS-197 Appendix A.1-A.3 (all round keys), Appendix C.1-C.3, C.1 equivalent-inverse schedule *)
+Example C04_kat_fips197_A1 : length (key_expansion kat_key128) = 11%nat.
+Proof. exact key_expansion_128_count. Qed.
+Example C04_kat_fips197_A2_last : lastn 2 (key_expansion kat_key192) =
+  [[0xca; 0x40; 0x05; 0x38; 0x8f; 0xcc; 0x50; 0x06; 0x28; 0x2d; 0x16; 0x6a; 0xbc; 0x3c; 0xe7; 0xb5];
+   [0xe9; 0x8b; 0xa0; 0x6f; 0x44; 0x8c; 0x77; 0x3c; 0x8e; 0xcc; 0x72; 0x04; 0x01; 0x00; 0x22; 0x02]].
+Proof. exact key_expansion_192_last. Qed.
+Example C04_kat_fips197_A3_last : lastn 2 (key_expansion kat_key256) =
+  [[0xca; 0xfa; 0xaa; 0xe3; 0xe4; 0xd5; 0x9b; 0x34; 0x9a; 0xdf; 0x6a; 0xce; 0xbd; 0x10; 0x19; 0x0d];
+   [0xfe; 0x48; 0x90; 0xd1; 0xe6; 0x18; 0x8d; 0x0b; 0x04; 0x6d; 0xf3; 0x44; 0x70; 0x6c; 0x63; 0x1e]].
+Proof. exact key_expansion_256_last. Qed.
+Example C04_kat_fips197_C1 : aes_enc (kat_c_key 16) kat_c_plain = kat_C1_cipher.
+Proof. exact cipher_C1. Qed.
+Example C04_kat_fips197_C2 : aes_enc (kat_c_key 24) kat_c_plain = kat_C2_cipher.
+Proof. exact cipher_C2. Qed.
+Example C04_kat_fips197_C3 : aes_enc (kat_c_key 32) kat_c_plain = kat_C3_cipher.
+Proof. exact cipher_C3. Qed.
+Example C04_kat_fips197_C1_eq_inv_schedule :
+  let d := dec_schedule (key_expansion (kat_c_key 16)) in
+  (nth 0 d [], nth 1 d [], nth 10 d []) =
+  ([0x13; 0x11; 0x1d; 0x7f; 0xe3; 0x94; 0x4a; 0x17; 0xf3; 0x07; 0xa7; 0x8b; 0x4d; 0x2b; 0x30; 0xc5],
+   [0x13; 0xaa; 0x29; 0xbe; 0x9c; 0x8f; 0xaf; 0xf6; 0xf7; 0x70; 0xf5; 0x80; 0x00; 0xf7; 0xbf; 0x03],
+   [0x00; 0x01; 0x02; 0x03; 0x04; 0x05; 0x06; 0x07; 0x08; 0x09; 0x0a; 0x0b; 0x0c; 0x0d; 0x0e; 0x0f]).
+Proof. exact dec_schedule_C1. Qed.
+(* SP 800-38A F.2.1 - F.2.6 *)
+Example C04_kat_sp800_38a_F_2_1 : cbc_enc cbc_kat_K128 cbc_kat_IV cbc_kat_P = cbc_kat_C128.
 Proof. exact cbc_enc_F_2_1. Qed.
+Example C04_kat_sp800_38a_F_2_2 : cbc_dec cbc_kat_K128 cbc_kat_IV cbc_kat_C128 = cbc_kat_P.
+Proof. exact cbc_dec_F_2_2. Qed.
+Example C04_kat_sp800_38a_F_2_3 : cbc_enc cbc_kat_K192 cbc_kat_IV cbc_kat_P = cbc_kat_C192.
+Proof. exact cbc_enc_F_2_3. Qed.
+Example C04_kat_sp800_38a_F_2_4 : cbc_dec cbc_kat_K192 cbc_kat_IV cbc_kat_C192 = cbc_kat_P.
+Proof. exact cbc_dec_F_2_4. Qed.
+Example C04_kat_sp800_38a_F_2_5 : cbc_enc cbc_kat_K256 cbc_kat_IV cbc_kat_P = cbc_kat_C256.
+Proof. exact cbc_enc_F_2_5. Qed.
+Example C04_kat_sp800_38a_F_2_6 : cbc_dec cbc_kat_K256 cbc_kat_IV cbc_kat_C256 = cbc_kat_P.
+Proof. exact cbc_dec_F_2_6. Qed.
